@@ -32,6 +32,7 @@ import (
 
 func normalizeSummary(S *Store, sum *Summary) {
 	unrollSmallLoops(S, sum)
+	markMonotoneCounters(S, sum)
 	forwardParamCopies(S, sum)
 	dropDeadObjects(S, sum)
 	dropZeroInit(S, sum)
@@ -40,6 +41,58 @@ func normalizeSummary(S *Store, sum *Summary) {
 	hoistAllocs(sum.Top)
 	assumeNoPanic(S, sum.Top)
 	restrictByGuard(S, sum.Top)
+	restrictLoopBodies(S, sum.Top)
+	dropDeadCarried(S, sum)
+}
+
+// restrictLoopBodies resolves decided selections inside loops: an event in a loop runs under the entry conditions of
+// the loops around it as well as under its own (iteration-relative) condition; loop conditions, exits and updates
+// run under the entry conditions.
+func restrictLoopBodies(S *Store, r *Region) { restrictLoopsCtx(S, r, S.True) }
+
+func restrictLoopsCtx(S *Store, r *Region, ctx *Term) {
+	for _, it := range r.Items {
+		l, ok := it.(*LoopS)
+		if !ok {
+			continue
+		}
+		if l.Guard != nil {
+			l.Guard = S.RestrictDeep(l.Guard, ctx)
+		}
+		in := ctx
+		if l.Guard != nil {
+			in = S.Canon(S.And(ctx, l.Guard))
+		}
+		l.Cont = S.RestrictDeep(l.Cont, in)
+		for _, x := range l.Exits {
+			x.Guard = S.RestrictDeep(x.Guard, in)
+		}
+		for _, c := range l.Carried {
+			c.Next = S.RestrictDeep(c.Next, in)
+		}
+		for _, bi := range l.Body.Items {
+			e, isEv := bi.(*Event)
+			if !isEv || e.Dead {
+				continue
+			}
+			g := in
+			if e.Guard != nil {
+				e.Guard = S.RestrictDeep(e.Guard, in)
+				g = S.Canon(S.And(in, e.Guard))
+			}
+			e.Val = S.RestrictDeep(e.Val, g)
+			for i := range e.Args {
+				e.Args[i] = S.RestrictDeep(e.Args[i], g)
+			}
+			for i := range e.Rets {
+				e.Rets[i] = S.RestrictDeep(e.Rets[i], g)
+			}
+			for i := range e.Path {
+				e.Path[i] = S.RestrictDeep(e.Path[i], g)
+			}
+		}
+		restrictLoopsCtx(S, l.Body, in)
+	}
 }
 
 func mergeExclusiveStores(S *Store, r *Region) {
@@ -581,6 +634,147 @@ func forwardParamCopies(S *Store, sum *Summary) {
 			for i := range r.Rets {
 				r.Rets[i] = S.Subst(r.Rets[i], sub2, memo2)
 			}
+		}
+	}
+}
+
+// dropDeadCarried removes loop-carried variables whose value at the start of an iteration is never used: the
+// variable appears only in its own update (x' = ite(c, v, x)), every real use having been resolved to the value
+// assigned earlier in the same iteration, and its final value is not used after the loop. (A variable declared
+// outside the loop but always assigned before it is read: `pivotrow` vs a per-iteration `pivotrow := -1`.)
+func dropDeadCarried(S *Store, sum *Summary) {
+	for changed := true; changed; {
+		changed = false
+		var loops []*LoopS
+		sum.Top.AllLoops(func(l *LoopS) { loops = append(loops, l) })
+		for _, l := range loops {
+			for ci, c := range l.Carried {
+				if c.Affine || c.Sym == nil {
+					continue
+				}
+				used := false
+				mention := func(t *Term) {
+					if t == nil || used {
+						return
+					}
+					if DependsOn(t, func(s *Symbol) bool { return s == c.Sym || (c.Fin != nil && s == c.Fin) }) {
+						used = true
+					}
+				}
+				// everything in the summary except this variable's own update
+				var scan func(r *Region)
+				scan = func(r *Region) {
+					for _, it := range r.Items {
+						switch x := it.(type) {
+						case *Event:
+							if x.Dead {
+								continue
+							}
+							mention(x.Guard)
+							mention(x.Root)
+							mention(x.Val)
+							mention(x.Recv)
+							mention(x.FnTerm)
+							mention(x.Len)
+							for _, t := range x.Path {
+								mention(t)
+							}
+							for _, t := range x.Args {
+								mention(t)
+							}
+							for _, t := range x.Rets {
+								mention(t)
+							}
+						case *LoopS:
+							mention(x.Guard)
+							mention(x.Cont)
+							mention(x.Trip)
+							mention(x.Bound)
+							for _, ex := range x.Exits {
+								mention(ex.Guard)
+							}
+							for _, oc := range x.Carried {
+								mention(oc.Init)
+								if oc != c {
+									mention(oc.Next)
+								}
+							}
+							scan(x.Body)
+						}
+					}
+				}
+				scan(sum.Top)
+				for _, r := range sum.Rets {
+					for _, t := range r.Rets {
+						mention(t)
+					}
+				}
+				if used {
+					continue
+				}
+				// its own update must not smuggle the old value into anything but itself: fine by construction
+				l.Carried = append(append([]*Carried{}, l.Carried[:ci]...), l.Carried[ci+1:]...)
+				changed = true
+				break
+			}
+			if changed {
+				break
+			}
+		}
+	}
+}
+
+// markMonotoneCounters: an integer loop-carried variable that starts non-negative and is only ever left unchanged or
+// increased by a non-negative amount is non-negative throughout (and so is its final value). The fact is attached
+// to the symbols and every term of the summary is rebuilt, so that comparisons such as row+k+1 <= 0 fold away.
+func markMonotoneCounters(S *Store, sum *Summary) {
+	marked := false
+	var monotone func(next *Term, sym *Term) bool
+	monotone = func(next, sym *Term) bool {
+		if next == sym {
+			return true
+		}
+		if next.Op == "ite" {
+			return monotone(next.Args[1], sym) && monotone(next.Args[2], sym)
+		}
+		if next.Op == "imax" {
+			return (next.Args[0] == sym && true) || (next.Args[1] == sym && true)
+		}
+		d := S.Sub(next, sym)
+		return !DependsOn(d, func(s *Symbol) bool { return s == sym.Sym }) && nonNeg(d)
+	}
+	for round := 0; round < 3; round++ {
+		sum.Top.AllLoops(func(l *LoopS) {
+			for _, c := range l.Carried {
+				if c.Ty != TInt || c.Sym == nil || c.Next == nil || c.Init == nil || (c.Sym.Attr != nil && c.Sym.Attr["nonneg"] != nil) {
+					continue
+				}
+				if nonNeg(c.Init) && monotone(c.Next, S.SymTerm(c.Sym)) {
+					for _, sy := range []*Symbol{c.Sym, c.Fin} {
+						if sy != nil {
+							if sy.Attr == nil {
+								sy.Attr = map[string]*Term{}
+							}
+							sy.Attr["nonneg"] = S.True
+						}
+					}
+					marked = true
+				}
+			}
+		})
+	}
+	if !marked {
+		return
+	}
+	memo := map[*Term]*Term{}
+	f := func(t *Term) *Term { return S.Renorm(t, memo) }
+	sum.Top.MapTerms(f)
+	for _, r := range sum.Rets {
+		for i := range r.Rets {
+			r.Rets[i] = f(r.Rets[i])
+		}
+		if r.Guard != nil {
+			r.Guard = f(r.Guard)
 		}
 	}
 }
